@@ -24,8 +24,8 @@ that is complete in CoAP terms (the caller gets exactly that response, nothing m
 A SUCCESSFUL response without Block1 option to a non-final block is a sequencing violation (until
 round 4 it had been put into the third class: a mistake of the verification, withdrawn).
 Requests are also sent with the application's size hint `block2=(0, False, szx)` (modelled:
-`Cfg.hint2`) and with the deprecated `block1=(0, False, szx)` hint (oracle only: the driver
-answers out-of-model), the latter also with an empty body.
+`Cfg.hint2`) and with the deprecated `block1=(0, False, szx)` hint (modelled since round 4:
+`Cfg.hint1`), the latter also with an empty body.
 
 Round 4: the client's maximum exponent ranges over 0..7 -- 7 is a remote that does BERT (RFC 8323 section 6,
 `maximum_block_size_exp` 7, what a TCP/WebSocket remote reports; `maximum_payload_size` 1124 / 2148 / 4196):
@@ -75,7 +75,7 @@ ASSUMPTIONS = ["a remote that does BERT (maximum_block_size_exp 7) takes at leas
                "change during a transfer (on a fresh TCP connection they do when the peer's CSM arrives: "
                "rfc8323common.py, outside the anchors)",
                "the application presets no Block options other than "
-               "the size hints block2=(0, False, szx) (modelled) and block1=(0, False, szx) (deprecated; oracle only) "
+               "the size hints block2=(0, False, szx) and block1=(0, False, szx) (deprecated), both modelled "
                "- a request that asks for a particular block of the response itself is not generated",
                "requests carrying Observe:0 are run through the same correspondence and oracle (the Lean client "
                "machine has no Observe option: it claims that the option has no influence on the block requests "
@@ -513,7 +513,7 @@ def mk(plen=0, rlen=0, szx0=6, mps=1124, choices=(), default=(6, False), etag="c
     if hint2 is not None:
         c["hint2"] = hint2           # the application's request carries block2=(0, False, hint2)
     if hint1 is not None:
-        c["hint1"] = hint1           # ... carries block1=(0, False, hint1) (deprecated size hint; oracle only)
+        c["hint1"] = hint1           # ... carries block1=(0, False, hint1) (deprecated size hint)
     if observe:
         c["observe"] = True          # the application request carries Observe:0
         if obs_final is not None:
@@ -954,7 +954,7 @@ def run(env, rep):
                 rep.count("block2-hint:first-block=" + ("none" if first is None else "below" if first < case["hint2"]
                                                         else "equal" if first == case["hint2"] else "above"))
             if case.get("hint1") is not None:
-                rep.count("block1-hint(oracle-only)")
+                rep.count("block1-hint")
             if kind == "ignore_block1" and obs["server"].triggered:
                 rep.count("no-block1-response:%s:%s->%s" % (
                     "final" if obs["server"].hit_final else "non-final",
@@ -998,7 +998,7 @@ def run(env, rep):
                       "upload=unfragmented", "upload=blockwise", "download=single", "download=blockwise",
                       "request-with-observe:final=observable", "request-with-observe:final=plain",
                       "observe-in-intermediate-2.31", "block2-hint:first-block=below", "block2-hint:first-block=equal",
-                      "block2-hint:first-block=above", "block1-hint(oracle-only)", "block1-hint:empty-body",
+                      "block2-hint:first-block=above", "block1-hint", "block1-hint:empty-body",
                       "client-szx=7", "bert-client:server=bert-peer", "bert-client:server=szx0..6",
                       "bert-upload-reduced-to-6", "bert-upload-reduced-to-below-6", "bert-download",
                       "no-block1-response:non-final:success->error", "no-block1-response:non-final:failure->exact",
